@@ -239,7 +239,7 @@ Section Db.
              destruct (abr_inv T sort sort_perm th_pop s3 (lits_of s3 c) I3 eq_refl Hdl Hf3 Hent Hex) as (I5 & _).
              pose proof (abr_dbstep s3 (lits_of s3 c) I3 eq_refl Hdl Hf3 Hent Hex) as D5.
              eapply dbstep_trans. exact D2. eapply dbstep_trans. exact D3. eapply dbstep_trans. exact D5. eapply IH; eauto.
-        * pose proof (thp_ok s2 p I2 Hp2) as Hok.
+        * pose proof (thp_ok s2 p I2 Hp2 Hpl2) as Hok.
           destruct (apply_theory sort s2 (th_propagate (thst s2) (assigns s2) (decision_level s2) p)) as [s3 cf] eqn:Ea.
           destruct (apply_theory_inv T sort sort_perm s2 _ s3 cf I2 Hok Ea) as (I3 & T3 & Hcf & _).
           pose proof (apply_theory_dbstep s2 _ s3 cf I2 Hok Ea) as D3.
